@@ -370,8 +370,24 @@ fn read_all(db: &Db, cols: &[Opt], nkeys: usize) -> Vec<Vec<Option<Vec<u8>>>> {
 }
 
 fn admin_case(ctx: &mut Ctx, rng: &mut Rng) {
-	let ncols = rng.range(1, 4) as usize;
+	// one database in twelve has more than a hundred columns: the file names of column 10 ("table_10_..") are then
+	// prefixes of nothing else only because of the separator ("table_100_..")
+	let wide = rng.chance(1, 12);
+	let ncols = if wide { rng.range(101, 131) as usize } else { rng.range(1, 4) as usize };
 	let mut cols: Vec<Opt> = (0..ncols).map(|_| Opt::random_valid(rng)).collect();
+	// (an index file has 32 MiB: in a wide database only column 10, three of the columns 100.. and two others get keys)
+	let populated: Vec<usize> = if wide {
+		let mut v = vec![10usize];
+		for _ in 0..3 {
+			v.push(rng.range(100, std::cmp::min(110, ncols as u64)) as usize);
+		}
+		for _ in 0..2 {
+			v.push(rng.below(ncols as u64) as usize);
+		}
+		v
+	} else {
+		(0..ncols).collect()
+	};
 	// a third of the databases have a counted multitree column with a shared node, so that a
 	// reference-count file exists as well
 	let mt_col = if rng.chance(1, 3) { Some(rng.below(ncols as u64) as usize) } else { None };
@@ -398,7 +414,7 @@ fn admin_case(ctx: &mut Ctx, rng: &mut Rng) {
 		}
 		let mut tx = Vec::new();
 		for c in 0..ncols {
-			if Some(c) == mt_col {
+			if Some(c) == mt_col || !populated.contains(&c) {
 				continue
 			}
 			for k in 0..nkeys {
@@ -419,7 +435,7 @@ fn admin_case(ctx: &mut Ctx, rng: &mut Rng) {
 			// unreplayed records
 			let mut tx = Vec::new();
 			for c in 0..ncols {
-				if Some(c) == mt_col {
+				if Some(c) == mt_col || !populated.contains(&c) {
 					continue
 				}
 				for k in 0..nkeys {
@@ -445,7 +461,7 @@ fn admin_case(ctx: &mut Ctx, rng: &mut Rng) {
 	let _ = std::fs::remove_file(img.join("lock"));
 	let before = snapshot(&img);
 	let op = rng.below(4);
-	let target = rng.below(ncols as u64) as usize;
+	let target = if wide { 10 } else { rng.below(ncols as u64) as usize };
 	let mut opts = options(&img, &cols);
 	let mut new_cols = cols.clone();
 	let (opname, res): (&str, parity_db::Result<()>) = match op {
